@@ -750,6 +750,7 @@ func c18Cases(seed uint64, tier string) []core.Case {
 		core.MkCase("roundtrip/anchor-extremes-with-deleted-document", 25, c18Params{Anchor: "extremes", Delete: true, FaultKs: ks}),
 		core.MkCase("roundtrip/anchor-chain-of-references", 26, c18Params{Anchor: "chain", FaultKs: 2}),
 		core.MkCase("roundtrip/anchor-cycle-of-references", 27, c18Params{Anchor: "cycle", FaultKs: 2}),
+		core.MkCase("roundtrip/anchor-two-documents-with-equal-current-content", 28, c18Params{Anchor: "equal-content", FaultKs: 2}),
 	}
 	rng := rand.New(rand.NewPCG(seed, 1818))
 	n := tierN(tier, 90, 2000)
@@ -804,6 +805,23 @@ func c18Extremes() c18DB {
 
 // c18Chain: four documents of one collection, each (but the last) pointing to the next through a
 // self-typed relation; nothing is updated after creation. cycle=true closes the chain.
+// c18EqualContent: two documents of one collection that were created with different values (hence
+// different ids) and whose CURRENT content is equal after an update; each is referenced by a document
+// of the other collection. Their ids after import are derived from equal content.
+func c18EqualContent() c18DB {
+	s := c18Schema{Cols: []string{"A", "B"}, Fields: map[string][]c13Field{
+		"A": {{Name: "name", Kind: c13String}, {Name: "num", Kind: c13Int}},
+		"B": {{Name: "name", Kind: c13String}, {Name: "num", Kind: c13Int}},
+	}, Rels: []c18Rel{{Col: "B", Name: "owner", Target: "A", Topo: "one_many", Back: "items"}}}
+	docs := []c18Doc{
+		{Col: "A", Vals: c13Doc{"name": "twin", "num": int64(1)}, FK: map[string]int{}},
+		{Col: "A", Vals: c13Doc{"name": "twin", "num": int64(2)}, FK: map[string]int{}, Upd: c13Doc{"num": int64(1)}},
+		{Col: "B", Vals: c13Doc{"name": "B#2", "num": int64(2)}, FK: map[string]int{"owner": 0}},
+		{Col: "B", Vals: c13Doc{"name": "B#3", "num": int64(3)}, FK: map[string]int{"owner": 1}},
+	}
+	return c18DB{Schema: s, Docs: docs}
+}
+
 func c18Chain(cycle bool) c18DB {
 	s := c18Schema{Cols: []string{"A", "B"}, Fields: map[string][]c13Field{
 		"A": {{Name: "name", Kind: c13String}, {Name: "num", Kind: c13Int}},
@@ -852,6 +870,8 @@ func c18Run(ctx context.Context, c core.Case, r *core.Rec) {
 		db = c18Chain(false)
 	case "cycle":
 		db = c18Chain(true)
+	case "equal-content":
+		db = c18EqualContent()
 	case "extremes":
 		db = c18Extremes()
 		if p.Delete {
@@ -992,7 +1012,11 @@ func c18Run(ctx context.Context, c core.Case, r *core.Rec) {
 	impErr := dst.DB.BasicImport(ctx, file1)
 	ops, _ := dst.Fault.Disarm()
 	if impErr != nil {
-		r.Violate("import/error/"+c18ErrClass(impErr), "import of a file written by export fails: "+impErr.Error(), detail(map[string]any{"error": impErr.Error()}))
+		sig := "import/error/" + c18ErrClass(impErr)
+		if p.Anchor == "equal-content" {
+			sig += "/two-source-documents-with-equal-current-content"
+		}
+		r.Violate(sig, "import of a file written by export fails: "+impErr.Error(), detail(map[string]any{"error": impErr.Error()}))
 		return
 	}
 	r.Count("imports", 1)
